@@ -54,6 +54,22 @@ Definition level_cleanup (sub ts : qtypes) : option qtypes :=
   else if cls_eqb s1 CX87up && negb (cls_eqb s0 CX87) then None
   else Some (get_result_type s0 (fst ts), get_result_type s1 (snd ts)).
 
+(* the member loop of one struct/union level (rec = classify_fields itself) *)
+Definition cf_members (rec : ty -> Z -> qtypes -> option qtypes) (offset : Z) :=
+  fix go (ms : list (mkind * ty)) (rs : list mrec) (sub : qtypes) : option qtypes :=
+    match ms, rs with
+    | (mk, mt) :: ms', r :: rs' =>
+        let member_offset := m_off r + offset in
+        if m_bit r <? 0 then
+          match rec mt member_offset sub with
+          | None => None
+          | Some sub' => go ms' rs' sub'
+          end
+        else if m_width r =? 0 then go ms' rs' sub
+        else go ms' rs' (qmerge ((member_offset * 8 + m_bit r) / 64) CInt sub)
+    | _, _ => Some sub
+    end.
+
 Fixpoint classify_fields (t : ty) (offset : Z) (ts : qtypes) : option qtypes :=
   match t with
   | TBasic KLDouble => Some (qmerge (offset / 8 + 1) CX87up (qmerge (offset / 8) CX87 ts))
@@ -70,20 +86,7 @@ Fixpoint classify_fields (t : ty) (offset : Z) (ts : qtypes) : option qtypes :=
                                    end)
                      (seq 0 (Z.to_nat n)) (Some ts)
   | TAgg u ms =>
-      let fix go (ms : list (mkind * ty)) (rs : list mrec) (sub : qtypes) : option qtypes :=
-        match ms, rs with
-        | (mk, mt) :: ms', r :: rs' =>
-            let member_offset := m_off r + offset in
-            if m_bit r <? 0 then
-              match classify_fields mt member_offset sub with
-              | None => None
-              | Some sub' => go ms' rs' sub'
-              end
-            else if m_width r =? 0 then go ms' rs' sub
-            else go ms' rs' (qmerge ((member_offset * 8 + m_bit r) / 64) CInt sub)
-        | _, _ => Some sub
-        end in
-      match go ms (mems (c2m_layout t)) (CNo, CNo) with
+      match cf_members classify_fields offset ms (mems (c2m_layout t)) (CNo, CNo) with
       | None => None
       | Some sub => level_cleanup sub ts
       end
